@@ -5,6 +5,8 @@ from .. import common, corpus, suite_translate as st
 THEOREMS = [
     "Lou.C06.fwdPassList_eq_doc", "Lou.C06.backPassList_eq_rev", "Lou.C06.fwd_stage_order",
     "Lou.C06.fwd_stage_order_doc", "Lou.C06.fwd_stage_chain", "Lou.C06.back_stage_order", "Lou.C06.fwd_map_compose",
+    "Lou.C06Pass.fwdTest_bounds", "Lou.C06Pass.select_first", "Lou.C06Pass.select_best", "Lou.C06Pass.fwdAction_ok",
+    "Lou.C06Pass.fwdAction_replaces_brackets", "Lou.C06Pass.fwdStage_contract", "Lou.C06Pass.fwdStage_total",
 ]
 
 CLAIM = dict(
@@ -16,9 +18,20 @@ CLAIM = dict(
           "(fwd_map_compose). Tie: hook H4 exports every executed pass of every real call; the oracle checks order, "
           "count, chaining and recomputes the composition independently in Python; the compiled Lean driver must "
           "reproduce the API result from the recorded stages."),
-    note=("Per-stage semantics of literal multipass rules (first matching rule in chain order, brackets) are decided against "
-          "the reference model of the pass interpreter only where Layer B covers them; see evidence 'layerB'."),
-    technique="Lean 4 proof over the driver model + H4 trace validation + independent recomposition oracle",
+    note=("Layer B (LouModel/Pass.lean, LouProofs/C06Pass.lean): the stage scanners, rule selection along the pass chain and "
+          "the test/action interpreters are modelled for LITERAL rules (first, last, look-back, string/dots literals, replace "
+          "brackets; actions literal, omit, copy) in both directions and compared with every recorded correct/pass2-4 stage "
+          "of real calls on generated tables (cells, position map, consumed length). Proved for the forward direction, for "
+          "every table and input: a successful test has ordered boundaries inside the input (fwdTest_bounds: an applied rule "
+          "never moves the position backwards); the applied rule is the first of the chain whose test matches (select_first) "
+          "and, in a chain ordered by decreasing key length then definition - which passTableOK checks on the DUMP of every "
+          "compiled table, together with the key passFindCharacters must have filed the rule under - a longest-key matching "
+          "rule, the earliest defined among those (select_best); an action of literals appends the matched characters before "
+          "the bracket verbatim, then the rule's literals, and continues at endReplace (fwdAction_replaces_brackets); the "
+          "stage result satisfies the engine contract E1-E4 and the 2n+2 iteration bound is never reached "
+          "(fwdStage_contract, fwdStage_total). The backward stage model is tied by the differential only; rules with "
+          "attributes, classes, swap, grouping, search or variables are outside the model (the driver answers UNSUPPORTED)."),
+    technique="Lean 4 proof (driver model; stage scanner and literal pass interpreter model) + H4 trace validation per call and per stage + independent recomposition oracle",
     design="DESIGN.md §7 C06")
 
 
